@@ -26,6 +26,10 @@ def _rel(a, b, tol=1e-8):
     return abs(a - b) <= tol * max(1.0, abs(a), abs(b))
 
 
+class GeneratorIgnored(Exception):
+    """A simulator is a function of its arguments and the generator state: it has to draw from the generator passed in."""
+
+
 class _Junk(object):
     __slots__ = ("a", "b", "c")
 
@@ -87,7 +91,16 @@ class C18(Machine):
                 kw["is_add_extinct_attr"] = False       # a non-default flag: the nodes are not marked, the tree is the same
             if sim == "rand_trees":
                 del kw["rng"]
-                trees = list(treesim.rand_trees(rng, treesim.birth_death_tree, dict(kw, birth_rate=st["birth"], death_rate=st["death"]), 2))
+                params = dict(kw, birth_rate=st["birth"], death_rate=st["death"])
+                reused = bool(st.get("reuse_species_tree")) and not st["with_namespace"]
+                if reused:
+                    # the caller's parameter dict has served an earlier call with ANOTHER generator
+                    list(treesim.rand_trees(SimRNG(st["seed"] ^ 0x77), treesim.birth_death_tree, params, 1))
+                d0 = rng.draws
+                trees = list(treesim.rand_trees(rng, treesim.birth_death_tree, params, 2))
+                if rng.draws == d0:
+                    raise GeneratorIgnored("rand_trees returned trees without drawing from the generator it was given "
+                                           "(parameter dict %s before)" % ("used with another generator" if reused else "not used"))
                 return "bd", trees[-1], n
             if sim == "birth_death":
                 return "bd", birthdeath.birth_death_tree(st["birth"], st["death"], birth_rate_sd=st["sd"], death_rate_sd=st["sd"], **kw), n
